@@ -288,6 +288,234 @@ def replay_case(case, targets, scales, motions, props, workdir, seed):
     return viol, nchecks, nloc
 
 
+# ------------------------------------------------------------------------------------------
+# code -> spec: random floating-point references, recorded as traces for Trace_XMapGeom
+def _sin_at(pos, a, n1, n2):
+    v1 = pos[n2] - pos[a]
+    v2 = pos[n1] - pos[a]
+    l1, l2 = np.linalg.norm(v1), np.linalg.norm(v2)
+    if l1 < 1e-6 or l2 < 1e-6:
+        return 0.0
+    return float(np.linalg.norm(np.cross(v1, v2)) / (l1 * l2))
+
+
+def _graph_info(n, bonds):
+    nb = {i: set() for i in range(n)}
+    for i, j in bonds:
+        nb[i - 1].add(j - 1)
+        nb[j - 1].add(i - 1)
+    anchors = [i for i in range(n) if len(nb[i]) >= 2]
+    triple = {a: (a, sorted(nb[a])[0], sorted(nb[a])[1]) for a in anchors}
+    return nb, anchors, triple
+
+
+def _classify(pos, anchors, triple):
+    """-> list of degenerate anchors, or None if some triple is in the ill-conditioned band"""
+    deg = []
+    for a in anchors:
+        sn = _sin_at(pos, *triple[a])
+        if sn < 1e-9:
+            deg.append(a)
+        elif sn < 1e-3:
+            return None
+    return deg
+
+
+def random_reference(rng):
+    kind = rng.choice(['tree', 'tree', 'cyclic', 'one', 'two', 'collinear', 'axis'])
+    if kind == 'one':
+        return kind, 1, [], rng.uniform(-1, 1, (1, 3))
+    if kind == 'two':
+        p = rng.uniform(-1, 1, (1, 3))
+        return kind, 2, [(1, 2)], np.vstack([p, p + _unit(rng) * rng.uniform(0.1, 0.4)])
+    n = int(rng.integers(3, 41))
+    order = rng.permutation(n)            # labels are shuffled so that "lowest numbered neighbours" varies
+    bonds = []
+    pos = np.zeros((n, 3))
+    pos[order[0]] = rng.uniform(-1, 1, 3)
+    for k in range(1, n):
+        parent = order[int(rng.integers(0, k))]
+        child = order[k]
+        bonds.append((int(min(parent, child)) + 1, int(max(parent, child)) + 1))
+        pos[child] = pos[parent] + _unit(rng) * rng.uniform(0.1, 0.3)
+    if kind == 'cyclic':
+        for _ in range(int(rng.integers(1, 4))):
+            i, j = rng.choice(n, 2, replace=False)
+            b = (int(min(i, j)) + 1, int(max(i, j)) + 1)
+            if b not in bonds:
+                bonds.append(b)
+    if kind in ('collinear', 'axis'):
+        nb, anchors, triple = _graph_info(n, bonds)
+        a = anchors[int(rng.integers(0, len(anchors)))]
+        _, n1, n2 = triple[a]
+        if kind == 'axis':
+            d = np.zeros(3)
+            d[int(rng.integers(0, 3))] = rng.choice([-1, 1]) * rng.choice([0.1, 0.125, 0.153])
+        else:
+            d = rng.integers(-3, 4, 3).astype(float)
+            if not d.any():
+                d[2] = 1.0
+            d *= rng.choice([0.125, 0.05, 0.1, 0.037])
+        base = np.round(pos[a], 3) if rng.random() < 0.5 else pos[a]
+        pos[a] = base
+        k1, k2 = rng.choice([-3, -2, -1, 1, 2, 3], 2, replace=False)
+        pos[n1] = base + k1 * d
+        pos[n2] = base + k2 * d
+    return kind, n, bonds, pos
+
+
+def _unit(rng):
+    v = rng.normal(size=3)
+    return v / np.linalg.norm(v)
+
+
+def _ranks(vals):
+    order = np.argsort(vals, kind='stable')
+    rk = [0] * len(vals)
+    r = 0
+    prev = None
+    for i in order:
+        v = vals[i]
+        if prev is not None and abs(v - prev) > 1e-12 * max(abs(v), abs(prev), 1e-300):
+            r += 1
+        rk[i] = r
+        prev = v
+    return rk
+
+
+def random_trace(seed, tid, workdir, props):
+    from gaddlemaps import ExchangeMap
+    rng = np.random.default_rng(seed)
+    for _attempt in range(50):
+        kind, n, bonds, pos = random_reference(rng)
+        nb, anchors, triple = _graph_info(n, bonds)
+        deg = _classify(pos, anchors, triple) if n >= 3 else []
+        dmin = min([np.linalg.norm(pos[i] - pos[j]) for i in range(n) for j in range(i)] or [1.0])
+        if deg is not None and dmin > 1e-3:
+            break
+    else:
+        raise common.MachineryError('could not generate a reference')
+    nt = int(rng.integers(1, 61))
+    centre = pos.mean(axis=0)
+    tpos = centre + rng.uniform(-1, 1, (nt, 3)) * rng.choice([0.3, 1.0, 2.0])
+    s = float(rng.choice([rng.uniform(0.05, 2.0), 0.5, 1.0, 2.0]))
+    names = ['C%d' % (i + 1) for i in range(n)]
+    refmol = synth.make_molecule(os.path.join(workdir, 'rr'), 'RREF', names, bonds, np.round(pos, 3))
+    tgt = synth.make_molecule(os.path.join(workdir, 'rt'), 'RTGT', ['T%d' % (i + 1) for i in range(nt)], [],
+                              np.round(tpos, 3))
+    refmol.atoms_positions = pos
+    tgt.atoms_positions = tpos
+    ev = []
+    m = ExchangeMap(refmol, tgt, s)
+    anchor_of = {}
+    for a, ts in m.equivalences.items():
+        for t in ts:
+            anchor_of[t] = a
+    d2 = ((tpos[:, None, :] - pos[None, :, :]) ** 2).sum(axis=2)
+    ev.append({'op': 'Build', 'equiv': [anchor_of.get(t, -1) + 1 for t in range(nt)],
+               'rk': [_ranks(list(d2[t])) for t in range(nt)]})
+    A = np.array([anchor_of.get(t, 0) for t in range(nt)])
+    vec0 = tpos - pos[A]
+    lawpt = pos[A] + s * vec0
+    out = m(refmol).atoms_positions
+    ev.append({'op': 'CallSame', 'finite': bool(np.isfinite(out).all()),
+               'law': [bool(x) for x in (np.abs(out - lawpt).max(axis=1) <= 1e-9)]})
+    if n == 2:
+        axes = np.tile(pos[1] - pos[0], (nt, 1))
+    elif n >= 3:
+        axes = np.array([pos[triple[a][2]] - pos[a] if a in triple else np.ones(3) for a in A])
+    else:
+        axes = np.ones((nt, 3))
+    axes = axes / np.linalg.norm(axes, axis=1)[:, None]
+    d_exp = s * np.linalg.norm(vec0, axis=1)
+    ax_exp = s * (vec0 * axes).sum(axis=1)
+    if 'C02' in props or 'C01' in props:
+        for _ in range(2 if 'C02' in props else 0):
+            R = _random_rotation(rng)
+            tau = rng.uniform(-50, 50, 3) * rng.choice([0.0, 0.1, 1.0])
+            ref2 = refmol.copy()
+            ref2.atoms_positions = pos @ R.T + tau
+            out2 = m(ref2).atoms_positions
+            fin = bool(np.isfinite(out2).all())
+            exp = lawpt @ R.T + tau
+            vec = out2 - (pos[A] @ R.T + tau)
+            dist = np.linalg.norm(vec, axis=1)
+            ax = (vec * (axes @ R.T)).sum(axis=1)
+            rad2 = (vec * vec).sum(axis=1) - ax ** 2
+            rad2e = d_exp ** 2 - ax_exp ** 2
+            ev.append({'op': 'CallRigid', 'finite': fin,
+                       'eq': [bool(x) for x in (np.abs(out2 - exp).max(axis=1) <= 1e-8)] if fin else [False] * nt,
+                       'dist': [bool(x) for x in (np.abs(dist - d_exp) <= 1e-8)] if fin else [False] * nt,
+                       'axial': [bool(x) for x in (np.abs(ax - ax_exp) <= 1e-8)] if fin else [False] * nt,
+                       'radial': [bool(x) for x in (np.abs(rad2 - rad2e) <= 4e-8 * np.maximum(d_exp, 1e-2) + 1e-12)]
+                       if fin else [False] * nt})
+    if 'C03' in props and n >= 3:
+        for _ in range(2):
+            for _try in range(30):
+                pos3 = pos + rng.normal(0, rng.choice([0.02, 0.1, 0.3]), pos.shape)
+                if _classify(pos3, anchors, triple) == []:
+                    break
+            else:
+                continue
+            mol3 = refmol.copy()
+            mol3.atoms_positions = pos3
+            out3 = m(mol3).atoms_positions
+            fin = bool(np.isfinite(out3).all())
+            dist = np.linalg.norm(out3 - pos3[A], axis=1)
+            mutual = []
+            for t in range(nt):
+                same = np.nonzero(A == A[t])[0]
+                do = np.linalg.norm(out3[same] - out3[t], axis=1)
+                dl = s * np.linalg.norm(tpos[same] - tpos[t], axis=1)
+                mutual.append(bool(np.abs(do - dl).max() <= 1e-9))
+            ev.append({'op': 'CallDeformed', 'finite': fin,
+                       'dist': [bool(x) for x in (np.abs(dist - d_exp) <= 1e-9)] if fin else [False] * nt,
+                       'mutual': mutual if fin else [False] * nt})
+            for d in rng.permutation(n)[:6]:
+                pos4 = pos3.copy()
+                pos4[d] += rng.normal(0, 0.2, 3)
+                mol4 = refmol.copy()
+                mol4.atoms_positions = pos4
+                out4 = m(mol4).atoms_positions
+                ev.append({'op': 'Displace', 'atom': int(d) + 1,
+                           'unchanged': [bool(x) for x in (np.abs(out4 - out3).max(axis=1) <= 1e-12)]})
+    return {'tid': tid, 'cfg': {'n': n, 'bonds': [list(b) for b in bonds], 'nt': nt,
+                                'degenerate': [a + 1 for a in (deg or [])]},
+            'meta': {'seed': seed, 'kind': kind, 'scale': s, 'positions': pos.tolist(),
+                     'targets': tpos.tolist()},
+            'ev': ev}
+
+
+def _work_rand(args):
+    items, props, part, workroot = args
+    common.import_repo()
+    workdir = os.path.join(workroot, 'wr%d' % os.getpid())
+    with open(part, 'w') as fh:
+        for tid, seed in items:
+            try:
+                tr = random_trace(seed, tid, workdir, props)
+            except Exception as exc:
+                import traceback
+                tr = {'tid': tid, 'cfg': {'n': 1, 'bonds': [], 'nt': 0, 'degenerate': []},
+                      'meta': {'seed': seed, 'exception': traceback.format_exc()[-1200:]},
+                      'ev': [{'op': 'Exception', 'type': type(exc).__name__}]}
+            fh.write(json.dumps(tr) + '\n')
+    return part
+
+
+TRACE_CFG = """SPECIFICATION TraceSpec
+CONSTANTS
+  Graphs = {}
+  Placements <- NoPlacements
+  Targets <- NoTargets
+  Scales = {}
+  Motions = {}
+  Perp <- NoPerp
+INVARIANT Accepted
+CHECK_DEADLOCK FALSE
+"""
+
+
 def _work(args):
     cases, targets, scales, motions, props, workroot, seed = args
     common.import_repo()
@@ -376,6 +604,48 @@ def check(run, props):
             run.traces += 1
             for sig, rec in viol:
                 run.violation(sig, rec)
+    # code -> spec: random floating-point references validated against Trace_XMapGeom
+    from ..traces import validate_batches
+    nrand = 160 if run.quick else 3000
+    items = [(10 ** 6 + j, run.seed * 1000003 + 17 * j + 5) for j in range(nrand)]
+    jobs = [(items[i::nproc], props, os.path.join(run.scratch, 'xr%d.ndjson' % i), workroot)
+            for i in range(nproc) if items[i::nproc]]
+    with Pool(nproc) as pool:
+        parts = pool.map(_work_rand, jobs)
+    rtraces = {}
+    for pth in parts:
+        with open(pth) as fh:
+            for line in fh:
+                t = json.loads(line)
+                rtraces[t['tid']] = t
+    verdicts = validate_batches('Trace_XMapGeom', TRACE_CFG, parts, run.scratch, timeout=3000, run=run)
+    mine = {'C01': {'anchor_has_two_bonds', 'anchor_is_nearest', 'law', 'finite'},
+            'C02': {'anchor_has_two_bonds', 'anchor_is_nearest', 'equivariant', 'axis_invariant', 'dist_only', 'finite'},
+            'C03': {'anchor_has_two_bonds', 'anchor_is_nearest', 'scaled_distance', 'mutual_distance', 'local', 'finite'}}
+    allowed = set().union(*(mine[p] for p in props))
+    kinds = {}
+    for tid, tr in rtraces.items():
+        v = verdicts.get(tid)
+        if tr['ev'] and tr['ev'][0]['op'] == 'Exception':
+            v = ('FAIL', tid, 1, 'exception')
+        if v is None:
+            raise tlc.TLCError('no verdict for random trace %r' % tid)
+        kinds[tr['meta'].get('kind')] = kinds.get(tr['meta'].get('kind'), 0) + 1
+        run.case(('rand', tr['meta']['seed']), nontrivial=True,
+                 sample={'random_reference': tr['meta'].get('kind'), 'n': tr['cfg']['n'], 'nt': tr['cfg']['nt'],
+                         'events': [e['op'] for e in tr['ev']][:8]} if len(run.samples) < 6 else None)
+        run.traces += 1
+        if v[0] == 'ACC':
+            continue
+        clause = v[3]
+        if clause not in allowed and clause != 'exception':
+            run.note('clause %s failed on a random trace; decided by the sibling property check' % clause)
+            continue
+        sig = {'check': 'trace:' + clause, 'ref_atoms': min(tr['cfg']['n'], 3),
+               'geometry': 'collinear' if tr['cfg']['degenerate'] else 'generic'}
+        run.violation(sig, {'engine': 'xmap-geom', 'spec': 'Trace_XMapGeom', 'failing_clause': clause,
+                            'event_index': v[2], 'trace': tr})
+    run.extra['random_reference_kinds'] = kinds
     if 'C03' in props and nloc == 0:
         raise tlc.TLCError('locality check was vacuous: no displaced frame atom changed any output')
     run.rule = ('cases = (bond graph, lattice placement of the reference) enumerated exhaustively by TLC with the '
